@@ -73,6 +73,10 @@ fn is_dropped(id: u64) -> bool {
     FLAGS.lock().unwrap().as_ref().and_then(|m| m.get(&id)).map(|f| f.load(SeqCst)).unwrap_or(false)
 }
 
+impl AS for std::sync::RwLock<()> {
+    const NAME: &'static str = "rwlock";
+}
+
 /// The strategies this workload runs under.
 pub trait AS: arc_swap::strategy::Strategy<Arc<Root>> + Default + Send + Sync + 'static {
     const NAME: &'static str;
